@@ -14,6 +14,8 @@ CLAIMS = {
          "trusts rustc's MIR and callee resolution; callback model for serde visitors; unbounded recursion of the DOM parser and validating skipper is a listed known finding (F1a/F1b)"),
  "C05": ("structural necessary conditions of well-formed output decided on the current tree: the three escape tables equal RFC 8259 §7 for all 256 bytes and decode back with the crate's own reader tables (exhaustive table oracle); the reserved window is the affine form the escaper asserts and covers its worst case; no writer/serializer Result is dropped or swallowed and no short write count is ignored (error-discipline dataflow over every serializer/formatter/writer body); float writers reached only on finite classes; forwarding WriteExt impls keep one byte order; quotes only under need_quote. Full well-formedness of output for arbitrary Serialize impls is NOT decided",
          "trusts rustc's const evaluator for table bytes and MIR for bodies; RFC 8259 escape set encoded in the rule file"),
+ "C07": ("every constant table and constant the float paths depend on is compared entry by entry with independent big-integer generators (exhaustive over each table: 651 power-of-five pairs, 1308 shift digits, exact powers of ten, RawFloat constants, x86 multiplier words); the sign parameter reaches every float/integer result (dependence analysis, sign of zero included); Eisel-Lemire/long-mantissa results pass an infinity test; typed entry points contain no narrowing cast. Correct rounding of the algorithms using the tables is NOT decided",
+         "trusts rustc's const evaluator, the published table generators re-implemented in sa/oracles.py, and Python's correctly rounded int->float"),
  "C18": ("static protocol obligations of the publish-once caches decided on the MIR of the current tree (weak-CAS discipline, hand-over type agreement, loser cleanup and returned pointer, owner clone/drop pairing, memory orderings); each is a necessary condition of C18; behaviour under interleavings is NOT decided",
          "trusts rustc's MIR and callee resolution, and the memory model's meaning of the ordering constants"),
 }
